@@ -274,8 +274,10 @@ func vfC04(w *vfWorld) {
 			switch tk.Verified {
 			case "false":
 				why("email_verified=false")
-			case "string-true", "string-false":
-				tk.Either = true // non-boolean JSON type: either
+			case "string-false":
+				why("email_verified=\"false\"") // the string spelling (some providers send it) marks the address unverified all the same
+			case "string-true":
+				tk.Either = true // a non-boolean "true": either
 			}
 		}
 		tk.Accept = ok
